@@ -5,10 +5,11 @@
 //   - the verdicts of monitors that evaluate the properties' own predicates directly on the implementation.
 //
 // usage: harness-inflight hist  quick|thorough        generated histories (exhaustive small, random long, timing, conn)
-//        harness-inflight one   '<json case>'         run a single history verbosely (replay)
-//        harness-inflight perm  quick|thorough        C10: payload-tagged responses in all permutations
-//        harness-inflight sock  quick|thorough        C16: scripted socket sessions, goroutine accounting
-//        harness-inflight stress quick|thorough       concurrent senders + responder on the real handler
+//
+//	harness-inflight one   '<json case>'         run a single history verbosely (replay)
+//	harness-inflight perm  quick|thorough        C10: payload-tagged responses in all permutations
+//	harness-inflight sock  quick|thorough        C16: scripted socket sessions, goroutine accounting
+//	harness-inflight stress quick|thorough       concurrent senders + responder on the real handler
 package main
 
 import (
@@ -34,29 +35,31 @@ import (
 // ---------------------------------------------------------------------------------------------- cases
 
 type Case struct {
-	Id     int      `json:"id"`
-	Group  string   `json:"group"`
-	Conn   bool     `json:"conn"`
-	Level  int      `json:"level"`
-	N      int      `json:"N"`
-	P      int      `json:"P"`
-	T      int64    `json:"T"`      // timeout in abstract clock units
-	UnitMs int      `json:"unitMs"` // 0: no timing (real timeout one hour, no T ops)
-	Ops    []string `json:"ops"`    // run-length encoded: "M*3"
+	Id      int      `json:"id"`
+	Group   string   `json:"group"`
+	Conn    bool     `json:"conn"`
+	Level   int      `json:"level"`
+	N       int      `json:"N"`
+	P       int      `json:"P"`
+	T       int64    `json:"T"`                 // timeout in abstract clock units
+	UnitMs  int      `json:"unitMs"`            // 0: no timing (real timeout one hour, no T ops)
+	Ops     []string `json:"ops"`               // run-length encoded: "M*3"
+	NoModel bool     `json:"nomodel,omitempty"` // too long for the model inside coqc: monitors only
 }
 
 type Viol struct {
 	Kind string `json:"kind"`
+	Cls  string `json:"cls,omitempty"` // error class involved, where one is
 	Step int    `json:"step"`
 	What string `json:"what"`
 }
 
 type Result struct {
-	Kind  string   `json:"kind"`
-	Case  Case     `json:"case"`
-	Obs   []int64  `json:"obs"`
-	Viol  []Viol   `json:"viol"`
-	Panic string   `json:"panic,omitempty"`
+	Kind  string         `json:"kind"`
+	Case  Case           `json:"case"`
+	Obs   []int64        `json:"obs"`
+	Viol  []Viol         `json:"viol"`
+	Panic string         `json:"panic,omitempty"`
 	Stats map[string]int `json:"stats"`
 }
 
@@ -182,9 +185,10 @@ func runCase(c Case, verbose bool) (res Result) {
 	shadow := map[int]*handle{} // monitor: accepted requests whose final frame has not arrived
 	closedSeen := false
 	step := -1
+	curCls := ""
 	viol := func(kind string, format string, a ...interface{}) {
 		if len(res.Viol) < 8 {
-			res.Viol = append(res.Viol, Viol{kind, step, fmt.Sprintf(format, a...)})
+			res.Viol = append(res.Viol, Viol{Kind: kind, Cls: curCls, Step: step, What: fmt.Sprintf(format, a...)})
 		}
 	}
 	obs := []int64{}
@@ -207,6 +211,7 @@ func runCase(c Case, verbose bool) (res Result) {
 	}()
 	for i, o := range ops {
 		step = i
+		curCls = ""
 		kind := o[0]
 		arg := 0
 		if len(o) > 1 {
@@ -257,6 +262,7 @@ func runCase(c Case, verbose bool) (res Result) {
 				shadow[id] = hd
 			} else {
 				cls := client.VerifErrClass(err)
+				curCls = cls
 				stepObs = []int64{2, errCode[cls]}
 				res.Stats["refused:"+cls]++
 				if k == 0 && f.Header.StreamId != 0 {
@@ -267,6 +273,12 @@ func runCase(c Case, verbose bool) (res Result) {
 				}
 				if !closedSeen && h.InFlightLen() != registeredBefore {
 					viol("refused-but-registered", "send refused (%s) but %d requests are registered, %d before the call", cls, h.InFlightLen(), registeredBefore)
+					// keep a handle on the orphan so that the final dump shows it (the caller never gets one)
+					if orphan, ok := h.InFlightRequestAt(f.Header.StreamId); ok {
+						hd := &handle{r: orphan, sid: int(f.Header.StreamId), managed: k == 0}
+						handles = append(handles, hd)
+						shadow[hd.sid] = hd
+					}
 				}
 				// C09 says nothing forces acceptance below the limit except recycling (checked by the recycle group)
 			}
@@ -667,10 +679,10 @@ func randomHistory(rng *rand.Rand, n, length int, conn bool) []string {
 // So every observation is made either <= 0.3 timeout or >= 3 timeouts after a timer was armed.
 func timingHistories(rng *rand.Rand, quick bool) [][]string {
 	hs := [][]string{
-		{"M", "T30"},                                     // silence: times out
-		{"M", "T1", "L1"},                                // answered in time
-		{"M", "T30", "L1", "M"},                          // late answer frees the id
-		{"M", "T30", "D1", "L1"},                         // late pages are refused, the last one unregisters
+		{"M", "T30"},             // silence: times out
+		{"M", "T1", "L1"},        // answered in time
+		{"M", "T30", "L1", "M"},  // late answer frees the id
+		{"M", "T30", "D1", "L1"}, // late pages are refused, the last one unregisters
 		{"M", "T1", "D1", "T1", "D1", "T1", "D1", "T30"}, // pages keep it alive, then silence
 		{"M", "D1", "T30", "C"},                          // one page, silence, Close (F11 scenario)
 		{"M", "D1", "T30", "D1", "L1", "C"},
@@ -759,10 +771,7 @@ func genHist(tier string) []Case {
 		}
 	}
 	// the whole id space: fill, refuse, answer in a scrambled order, refill (level 0 dump: pool, keys)
-	for _, n := range []int{5, 1000, 32767} {
-		if quick && n == 1000 {
-			continue
-		}
+	for _, n := range []int{5, 600, 32767} {
 		ops := []string{fmt.Sprintf("M*%d", n), "M", "X" + strconv.Itoa(n/2+1), "X-5"}
 		perm := rng.Perm(n)
 		cnt := n
@@ -773,8 +782,23 @@ func genHist(tier string) []Case {
 			ops = append(ops, "L"+strconv.Itoa(i+1))
 		}
 		ops = append(ops, fmt.Sprintf("M*%d", cnt), "M", "L1", "M", "C", "M")
-		add(Case{Group: fmt.Sprintf("fill-N%d", n), Level: 0, N: n, P: 3, T: bigT, Ops: ops})
+		// the model inside coqc is quadratic in the number of registered requests: the full 32767 fill runs on the
+		// implementation only (monitors); the model follows a partial fill of the same handler size
+		add(Case{Group: fmt.Sprintf("fill-N%d", n), Level: 0, N: n, P: 3, T: bigT, Ops: ops, NoModel: n > 2000})
+		if n > 2000 {
+			part := 1200
+			ops := []string{fmt.Sprintf("M*%d", part), "X7", "X-5", "X" + strconv.Itoa(n)}
+			for _, i := range rng.Perm(part)[:800] {
+				ops = append(ops, "L"+strconv.Itoa(i+1))
+			}
+			ops = append(ops, "M*900", "L7", "L5", "M*3", "C", "M")
+			add(Case{Group: fmt.Sprintf("part-N%d", n), Level: 0, N: n, P: 3, T: bigT, Ops: ops})
+		}
 	}
+	// witnesses of defects (repaired or listed): the former F9 history, the F12 history, the former F11 history
+	add(Case{Group: "witness-F9", Level: 1, N: 2, P: 2, T: bigT, Ops: []string{"X5", "X6", "M", "L5", "M", "M", "M"}})
+	add(Case{Group: "witness-F12-conn", Conn: true, Level: 1, N: 1, P: 1, T: bigT, Ops: []string{"S0", "L1", "S0", "S0", "L1", "S0"}})
+	add(Case{Group: "witness-F11", Level: 1, N: 3, P: 2, T: 10, UnitMs: 30, Ops: []string{"M", "D1", "T30", "C"}})
 	// timing
 	for _, ops := range timingHistories(rng, quick) {
 		add(Case{Group: "timing", Level: 1, N: 3, P: 2, T: 10, UnitMs: 30, Ops: ops})
@@ -898,9 +922,35 @@ func main() {
 	}
 	switch os.Args[1] {
 	case "hist":
-		runAll(genHist(tier))
-	case "perm":
-		runAll(permCases(tier))
+		which := "all"
+		if len(os.Args) > 3 {
+			which = os.Args[3]
+		}
+		all := genHist(tier)
+		for _, c := range permCases(tier) {
+			c.Id = len(all)
+			all = append(all, c)
+		}
+		var sel []Case
+		for _, c := range all {
+			g := c.Group
+			isConn := strings.HasSuffix(g, "-conn")
+			keep := false
+			switch which {
+			case "all":
+				keep = true
+			case "c09":
+				keep = (strings.HasPrefix(g, "exh-") && !isConn) || strings.HasPrefix(g, "rand-") || strings.HasPrefix(g, "fill-") || strings.HasPrefix(g, "part-") || g == "witness-F9" || g == "witness-F12-conn"
+			case "c10":
+				keep = strings.HasPrefix(g, "perm-") || isConn || (strings.HasPrefix(g, "rand-") && c.Conn)
+			case "c16":
+				keep = g == "timing" || g == "witness-F11" || strings.HasPrefix(g, "exh-N2-P1") || g == "rand-N2" || g == "rand-N3"
+			}
+			if keep {
+				sel = append(sel, c)
+			}
+		}
+		runAll(sel)
 	case "one":
 		var c Case
 		if err := json.Unmarshal([]byte(os.Args[2]), &c); err != nil {
